@@ -236,23 +236,20 @@ theorem counters_outside_fragment :
 /-- writePolicyChainRules, tcp template: the model's rule renders to the template of the source -/
 theorem template_plcy_tcp (chain cm : String) (s d : SetName) (ports : List Nat) :
     "-A" :: chain :: PRule.render ⟨[.comment cm, .proto .tcp, .setSrc s, .setDst d, .dports ports], .accept⟩ =
-      instTpl (plcyVars chain cm s.render d.render) (fun _ => ports.map toString)
-        (fun _ => instTpl (plcyVars chain cm s.render d.render) (fun _ => []) (fun _ => []) plcySetRules) plcyTcp := by
-  simp [instTpl, instTok, plcyVars, plcyTcp, plcySetRules, PRule.render, Mt.render, Tgt.render, Proto.render]
+      instTpl (plcyVars chain cm s.render d.render) (fun _ => ports.map toString) plcyTcp := by
+  simp [instTpl, instTok, plcyVars, plcyTcp, PRule.render, Mt.render, Tgt.render, Proto.render]
 
 /-- writePolicyChainRules, udp template -/
 theorem template_plcy_udp (chain cm : String) (s d : SetName) (ports : List Nat) :
     "-A" :: chain :: PRule.render ⟨[.comment cm, .proto .udp, .setSrc s, .setDst d, .dports ports], .accept⟩ =
-      instTpl (plcyVars chain cm s.render d.render) (fun _ => ports.map toString)
-        (fun _ => instTpl (plcyVars chain cm s.render d.render) (fun _ => []) (fun _ => []) plcySetRules) plcyUdp := by
-  simp [instTpl, instTok, plcyVars, plcyUdp, plcySetRules, PRule.render, Mt.render, Tgt.render, Proto.render]
+      instTpl (plcyVars chain cm s.render d.render) (fun _ => ports.map toString) plcyUdp := by
+  simp [instTpl, instTok, plcyVars, plcyUdp, PRule.render, Mt.render, Tgt.render, Proto.render]
 
 /-- writePolicyChainRules, port-less template (`-p all`) -/
 theorem template_plcy_all (chain cm : String) (s d : SetName) :
     "-A" :: chain :: PRule.render ⟨[.comment cm, .protoAll, .setSrc s, .setDst d], .accept⟩ =
-      instTpl (plcyVars chain cm s.render d.render) (fun _ => [])
-        (fun _ => instTpl (plcyVars chain cm s.render d.render) (fun _ => []) (fun _ => []) plcySetRules) plcyAll := by
-  simp [instTpl, instTok, plcyVars, plcyAll, plcySetRules, PRule.render, Mt.render, Tgt.render]
+      instTpl (plcyVars chain cm s.render d.render) (fun _ => []) plcyAll := by
+  simp [instTpl, instTok, plcyVars, plcyAll, PRule.render, Mt.render, Tgt.render]
 
 /-- the guards of the three templates are the ones `tplRules` uses: a chunk loop of `maxMultiportPorts` = 15 ports for
     tcp and for udp (each iteration builds its words afresh: `template_plcy_tcp/udp` hold per chunk), the port-less
@@ -267,11 +264,11 @@ theorem fact_plcy_guards :
 /-- SyncPodChains: the three kinds of pod-chain lines and the two hook rules -/
 theorem template_pod_chain (podChain cm ip plcy : String) :
     "-A" :: podChain :: PRule.render ⟨[.comment cm, .ctEstablished], .accept⟩ =
-      instTpl (podVars podChain cm ip plcy) (fun _ => []) (fun _ => []) podChainFirst ∧
+      instTpl (podVars podChain cm ip plcy) (fun _ => []) podChainFirst ∧
     "-A" :: podChain :: PRule.render ⟨[.comment cm], .jump (.other plcy)⟩ =
-      instTpl (podVars podChain cm ip plcy) (fun _ => []) (fun _ => []) podChainJump ∧
+      instTpl (podVars podChain cm ip plcy) (fun _ => []) podChainJump ∧
     "-A" :: podChain :: PRule.render ⟨[.comment cm], .drop⟩ =
-      instTpl (podVars podChain cm ip plcy) (fun _ => []) (fun _ => []) podChainLast := by
+      instTpl (podVars podChain cm ip plcy) (fun _ => []) podChainLast := by
   simp [instTpl, instTok, podVars, podChainFirst, podChainJump, podChainLast, PRule.render, Mt.render, Tgt.render,
     Chain.render]
 
@@ -279,13 +276,13 @@ theorem template_pod_chain (podChain cm ip plcy : String) :
     and `-s <ip> …` (GLX-EGRESS) -/
 theorem fact_hooks :
     hookIngressArgs = [Tok.lit "-d", Tok.var "pod.Status.PodIP", Tok.lit "-m", Tok.lit "comment", Tok.lit "--comment",
-      Tok.var "podNameComment", Tok.lit "-j", Tok.var "podChain"] ∧
+      Tok.var "fmt.Sprintf(\"%s_%s\", pod.Name, pod.Namespace)", Tok.lit "-j", Tok.var "podChainName(pod)"] ∧
     hookEgressArgs = [Tok.lit "-s", Tok.var "pod.Status.PodIP", Tok.lit "-m", Tok.lit "comment", Tok.lit "--comment",
-      Tok.var "podNameComment", Tok.lit "-j", Tok.var "podChain"] ∧
+      Tok.var "fmt.Sprintf(\"%s_%s\", pod.Name, pod.Namespace)", Tok.lit "-j", Tok.var "podChainName(pod)"] ∧
     hookCalls = [("EnsureRule", "utiliptables.Append", "ingressChain", "filteredIngressPolicy.Len() > 0"),
-      ("DeleteRule", "", "ingressChain", "!(filteredIngressPolicy.Len() > 0)"),
+      ("DeleteRule", "", "ingressChain", "filteredIngressPolicy.Len() <= 0"),
       ("EnsureRule", "utiliptables.Append", "egressChain", "filteredEgressPolicy.Len() > 0"),
-      ("DeleteRule", "", "egressChain", "!(filteredEgressPolicy.Len() > 0)")] ∧
+      ("DeleteRule", "", "egressChain", "filteredEgressPolicy.Len() <= 0")] ∧
     podChainJumpCond = true ∧ syncPodOrderDeleteThenNoIPThenBase = true := by
   decide
 
@@ -305,8 +302,8 @@ theorem fact_names :
     setHashInput = "tableNameHash(fmt.Sprintf(\"%s_%s\", np.Name, np.Namespace))" ∧
     policyChainNameExpr = "fmt.Sprintf(\"%s-%s\", policyChainPrefix, nameHash(fmt.Sprintf(\"%s_%s\", policy.Name, policy.Namespace)))" ∧
     podChainNameExpr = "fmt.Sprintf(\"%s-%s\", podChainPrefix, nameHash(fmt.Sprintf(\"%s_%s\", pod.Name, pod.Namespace)))" ∧
-    nameHashBody = ["hash := sha256.Sum256([]byte(data))", "encoded := base32.StdEncoding.EncodeToString(hash[:])",
-      "return encoded[:16]"] ∧ tableNameHashBody = nameHashBody := by
+    nameHashBody = ["return base32.StdEncoding.EncodeToString(sha256.Sum256([]byte(data))[:])[:16]"] ∧
+    tableNameHashBody = nameHashBody := by
   decide
 
 /-- rendered names use the regenerated prefixes / formats -/
@@ -322,9 +319,11 @@ theorem names_render (h : String) :
 theorem fact_compiler_shape :
     (∀ i e, defaultIngress i e = true) ∧ (∀ i e, defaultEgress i e = decide (e > 0)) ∧
     ioeLoopSetsFlagPerType = true ∧ ioeDefaultCond = "!ingress && !egress" ∧
-    writeRulesIngressCall = ["filterRules", "string(policyChain)", "policyNameComment", "srcTableNames",
+    writeRulesIngressCall = ["filterRules", "string(utiliptables.Chain(policyChainName(policy.np)))",
+      "fmt.Sprintf(\"%s_%s\", policy.np.Name, policy.np.Namespace)", "srcTableNames",
       "[]string{policy.ingressRule.dstIPTable.Name}", "rule.tcpPorts", "rule.udpPorts"] ∧
-    writeRulesEgressCall = ["filterRules", "string(policyChain)", "policyNameComment",
+    writeRulesEgressCall = ["filterRules", "string(utiliptables.Chain(policyChainName(policy.np)))",
+      "fmt.Sprintf(\"%s_%s\", policy.np.Name, policy.np.Namespace)",
       "[]string{policy.egressRule.srcIPTable.Name}", "dstTableNames", "rule.tcpPorts", "rule.udpPorts"] ∧
     writeRulesAppends = ["srcTableNames = append(srcTableNames, rule.ipTable.Name)",
       "srcTableNames = append(srcTableNames, rule.netTable.Name)",
